@@ -71,7 +71,7 @@ KindAt(i, t) == IF \E w \in SeqToSet(Windows) : w.integ = IntegName(i) /\ w.from
                   THEN (CHOOSE w \in SeqToSet(Windows) : w.integ = IntegName(i) /\ w.from <= t /\ t < w.to).kind
                   ELSE "ok"
 
-Init == /\ now = 0 /\ cfg = TheCfg /\ ver = << >> /\ sil = << >> /\ last = << >> /\ brk = << >> /\ fl = << >>
+Init == /\ now = 0 /\ cfg = Derive(TheCfg) /\ ver = << >> /\ sil = << >> /\ last = << >> /\ brk = << >> /\ fl = << >>
         /\ cancd = [seen |-> {}, dead |-> << >>, deadgk |-> {}, refl |-> {}, ing |-> << >>, mby |-> << >>, lastReload |-> 0 - 1]
         /\ elig = << >> /\ chk = {}
         /\ grp = << >> /\ gmap = << >> /\ nfl = << >> /\ ids = 0 /\ nposts = 0
